@@ -5,14 +5,6 @@ From Coq Require Import List Arith Lia Bool.
 Require Import V.Base.ListAux.
 Import ListNotations.
 
-(** np.where(recvbuf == item)[0] *)
-Fixpoint where_from (names : list nat) (x i : nat) : list nat :=
-  match names with
-  | [] => []
-  | y :: r => if Nat.eqb y x then i :: where_from r x (S i) else where_from r x (S i)
-  end.
-Definition where_eq names x := where_from names x 0.
-
 (** master_ranks[temp] = v *)
 Definition assign_at (m : list nat) (idxs : list nat) (v : nat) : list nat :=
   mapi (fun i old => if existsb (Nat.eqb i) idxs then v else old) m.
@@ -36,20 +28,6 @@ Proof.
   destruct (Nat.eqb y x); [reflexivity| apply IH].
 Qed.
 
-Lemma in_where_from names x : forall i q,
-  In q (where_from names x i) <-> exists k, q = i + k /\ k < length names /\ nth k names 0 = x.
-Proof.
-  induction names as [|y r IH]; intros i q; simpl.
-  - split; [tauto| intros (k & _ & H & _); lia].
-  - destruct (Nat.eqb_spec y x) as [E|E]; simpl; rewrite IH; split.
-    + intros [H|(k & -> & Hk & Hn)].
-      * exists 0. subst. split; [lia|]. split; [lia|reflexivity].
-      * exists (S k). split; [lia|]. split; [lia|exact Hn].
-    + intros (k & -> & Hk & Hn). destruct k as [|k]; [left; lia|]. right. exists k. split; [lia|]. split; [lia|exact Hn].
-    + intros (k & -> & Hk & Hn). exists (S k). split; [lia|]. split; [lia|exact Hn].
-    + intros (k & -> & Hk & Hn). destruct k as [|k]; [congruence|]. exists k. split; [lia|]. split; [lia|exact Hn].
-Qed.
-
 Lemma find_first_spec names x : forall i q, find_first names x i = Some q ->
   exists k, q = i + k /\ k < length names /\ nth k names 0 = x /\ forall k', k' < k -> nth k' names 0 <> x.
 Proof.
@@ -65,13 +43,6 @@ Lemma find_first_some names x i k : k < length names -> nth k names 0 = x -> exi
 Proof.
   revert i k; induction names as [|y r IH]; intros i k Hk Hn; simpl in *; [lia|].
   destruct (Nat.eqb_spec y x); [eauto|]. destruct k as [|k]; [congruence|]. apply (IH (S i) k); [lia|exact Hn].
-Qed.
-
-Lemma existsb_eqb_in i l : existsb (Nat.eqb i) l = true <-> In i l.
-Proof.
-  rewrite existsb_exists. split.
-  - intros (x & Hx & E). apply Nat.eqb_eq in E. now subst.
-  - intros H. exists i. split; [exact H| apply Nat.eqb_refl].
 Qed.
 
 Lemma socket_step_nth names m item r : length m = length names -> r < length names ->
